@@ -159,18 +159,125 @@ fn gen_hist(rng: &mut Rng) -> Hist {
     Hist { wire_chunks, msgs, csids: csids_all, schedule, cs }
 }
 
+/// Interleaving with in-band chunk-size changes: a SetChunkSize message (chunk stream 2) may
+/// arrive between two chunks of a message on another chunk stream; the sender cuts every later
+/// chunk - also of messages already in flight - at the new size.
+fn gen_hist_scs(rng: &mut Rng) -> Hist {
+    let mut enc = Encoder::new();
+    let cs0 = *rng.pick(&[1usize, 2, 5, 16, 128, 128, 200]);
+    let mut cur = cs0;
+    let mut pool: Vec<u32> = Vec::new();
+    while pool.len() < 5 {
+        let c = super::foreign::pick_csid(rng);
+        if c != 2 && !pool.contains(&c) {
+            pool.push(c);
+        }
+    }
+    struct Flight {
+        idx: usize,
+        hdr: Vec<u8>,
+        cont: Vec<u8>,
+        data: Vec<u8>,
+        pos: usize,
+        started: bool,
+    }
+    let mut wire_chunks: Vec<(usize, Vec<u8>)> = Vec::new();
+    let mut msgs: Vec<Msg> = Vec::new();
+    let mut csids_all: Vec<u32> = Vec::new();
+    let mut ts = rng.u32_boundary();
+    let mut changes = 0;
+    for _ in 0..rng.usize(1, 3) {
+        let nmsg = rng.usize(1, 4);
+        let mut flights: Vec<Flight> = Vec::new();
+        for j in 0..nmsg {
+            let len = match rng.below(6) {
+                0 => rng.usize(0, 8),
+                1 => cur * rng.usize(1, 4),
+                2 => cur * rng.usize(1, 4) + 1,
+                3 => rng.usize(100, 400),
+                _ => rng.usize(0, 1200),
+            }
+            .min(3000);
+            ts = ts.wrapping_add(rng.below(50) as u32);
+            let idx = msgs.len();
+            let mut data = vec![0u8; len];
+            for (i, b) in data.iter_mut().enumerate() {
+                *b = (idx as u8) << 4 | (i as u8 & 0x0F);
+            }
+            let m = Msg { type_id: *rng.pick(&[8u8, 9, 18, 20]), msid: *rng.pick(&[1u32, 1, 2]), ts, data };
+            let csid = pool[j];
+            let nonneg = enc.prev_info(csid).map(|p| ts.wrapping_sub(p.0) < 0x8000_0000).unwrap_or(false);
+            let mut c: Choice = enc.random_choice(rng, csid, &m, nonneg, false);
+            c.form = CsidForm::Min;
+            // the message header, independent of how the payload will be cut
+            let saved = enc.chunk_size;
+            enc.chunk_size = 0x0100_0000;
+            let one = enc.encode(&m, &c).remove(0);
+            enc.chunk_size = saved;
+            let hdr = one[..one.len() - m.data.len()].to_vec();
+            let field = enc.prev_info(csid).unwrap().1;
+            let mut cont = Vec::new();
+            chunk::basic_header(3, csid, c.form, &mut cont);
+            if field >= 0xFFFFFF {
+                cont.extend_from_slice(&field.to_be_bytes());
+            }
+            flights.push(Flight { idx, hdr, cont, data: m.data.clone(), pos: 0, started: false });
+            msgs.push(m);
+            csids_all.push(csid);
+        }
+        loop {
+            let open: Vec<usize> = (0..flights.len()).filter(|j| !flights[*j].started || flights[*j].pos < flights[*j].data.len()).collect();
+            if open.is_empty() {
+                break;
+            }
+            if changes < 5 && rng.chance(1, 4) {
+                // the new size: below, at and above the lengths of the messages in flight
+                let new = *rng.pick(&[1u32, 2, 5, 16, 100, 128, 200, 300, 1000, 4096, 65536, 0x7FFF_FFFF]);
+                let m = chunk::set_chunk_size_msg(new, 0);
+                enc.chunk_size = cur;
+                let c = Choice { csid: 2, form: CsidForm::Min, fmt: 0 };
+                let idx = msgs.len();
+                for ch in enc.encode(&m, &c) {
+                    wire_chunks.push((idx, ch));
+                }
+                msgs.push(m);
+                csids_all.push(2);
+                cur = new as usize;
+                changes += 1;
+                continue;
+            }
+            let j = *rng.pick(&open);
+            let f = &mut flights[j];
+            let take = (f.data.len() - f.pos).min(cur);
+            let mut ch = if f.started { f.cont.clone() } else { f.hdr.clone() };
+            ch.extend_from_slice(&f.data[f.pos..f.pos + take]);
+            f.pos += take;
+            f.started = true;
+            wire_chunks.push((f.idx, ch));
+        }
+    }
+    Hist { wire_chunks, msgs, csids: csids_all, schedule: "with-chunk-size-changes", cs: cs0 }
+}
+
+fn apply_scs(d: &mut ChunkDeserializer, m: &Msg) {
+    if m.type_id == 1 && m.data.len() >= 4 {
+        let v = u32::from_be_bytes([m.data[0], m.data[1], m.data[2], m.data[3]]) & 0x7FFF_FFFF;
+        let _ = d.set_max_chunk_size(v as usize);
+    }
+}
+
 impl Check for C16 {
     fn id(&self) -> &'static str {
         "C16"
     }
     fn plan(&self, tier: Tier) -> Plan {
-        Plan::new(tier.pick(450_000, 45_000_000), tier.pick(30.0, 360.0))
+        Plan::new(tier.pick(2_000_000, 60_000_000), tier.pick(30.0, 360.0))
     }
     fn selftest(&self) -> Result<(), String> {
         chunk::selftest()
     }
     fn run_case(&self, _tier: Tier, _k: u64, rng: &mut Rng, out: &mut Out) {
-        let h = gen_hist(rng);
+        let h = if rng.chance(1, 4) { gen_hist_scs(rng) } else { gen_hist(rng) };
         out.eval(1);
         let cs = h.cs;
         // expected deliveries by independent per-csid reassembly, and the first overlap point
@@ -224,7 +331,7 @@ impl Check for C16 {
                 let mut err1 = None;
                 let mut p = 0;
                 for n in partition(rng, cut, kind) {
-                    if let Err(e) = lib_feed(&mut d, &wire[p..p + n], &mut got, |_, _| {}) {
+                    if let Err(e) = lib_feed(&mut d, &wire[p..p + n], &mut got, |d, m| apply_scs(d, m)) {
                         err1 = Some(e);
                         break;
                     }
@@ -235,7 +342,7 @@ impl Check for C16 {
                 if err1.is_none() {
                     let mut p = cut;
                     for n in partition(rng, wire.len() - cut, kind) {
-                        if let Err(e) = lib_feed(&mut d, &wire[p..p + n], &mut got, |_, _| {}) {
+                        if let Err(e) = lib_feed(&mut d, &wire[p..p + n], &mut got, |d, m| apply_scs(d, m)) {
                             err2 = Some(e);
                             break;
                         }
@@ -283,7 +390,7 @@ impl Check for C16 {
         out.count("histories_exact", 1);
     }
     fn rule(&self) -> String {
-        "1-3 rounds of 2-6 messages (1-9 chunks each, chunk sizes {1,2,5,16,128,200}) on distinct chunk stream ids of all three csid forms, encoded by the independent encoder and interleaved by a scheduler that keeps each message's chunks in order: no-overlap, audio-inside-video, round-robin, pairwise, random. Payload bytes are tagged with their message index. Expected deliveries (each message when its last chunk arrives) come from independent per-csid reassembly. The stream is fed in two phases around the first overlap point (first chunk arriving on a csid while another csid has a partial message), each in 3 partitions. distinct = (messages, schedule, first-overlap offset bucket, chunk count).".to_string()
+        "1-3 rounds of 2-6 messages (1-9 chunks each, chunk sizes {1,2,5,16,128,200}) on distinct chunk stream ids of all three csid forms, encoded by the independent encoder and interleaved by a scheduler that keeps each message's chunks in order: no-overlap, audio-inside-video, round-robin, pairwise, random. A quarter of the histories instead interleave 1-4 messages (0-3000 bytes) per round with up to five in-band SetChunkSize messages on chunk stream 2 placed between chunks of the messages in flight (new sizes {1, 2, 5, 16, 100, 128, 200, 300, 1000, 4096, 65536, 2^31-1}: below, at and above the lengths in flight); every later chunk, also of messages already begun, is cut at the new size, and the deserializer is told the new size when the SetChunkSize message is delivered, as the sessions do. Payload bytes are tagged with their message index. Expected deliveries (each message when its last chunk arrives) come from independent per-csid reassembly. The stream is fed in two phases around the first overlap point (first chunk arriving on a csid while another csid has a partial message), each in 3 partitions. distinct = (messages, schedule, first-overlap offset bucket, chunk count).".to_string()
     }
     fn assumptions(&self) -> Vec<String> {
         vec![
@@ -301,6 +408,7 @@ impl Check for C16 {
             "schedule_round-robin".into(),
             "schedule_random".into(),
             "schedule_pairwise".into(),
+            "schedule_with-chunk-size-changes".into(),
         ]
     }
 }
